@@ -1,6 +1,6 @@
 """C16 configuration for ./check."""
 CFG = {
-    "modules": ["VaxisModel.Props.C16", "VaxisModel.Props.C16E2E", "VaxisModel.Props.C16Facts", "VaxisModel.Props.C16Draw", "VaxisModel.Props.C16Heap", "VaxisModel.Props.C16Obj", "VaxisModel.Witness.F316", "VaxisModel.Witness.C16StateEarly"],
+    "modules": ["VaxisModel.Props.C16", "VaxisModel.Props.C16E2E", "VaxisModel.Props.C16Facts", "VaxisModel.Props.C16Draw", "VaxisModel.Props.C16Heap", "VaxisModel.Props.C16Obj", "VaxisModel.Props.C16DrawAll", "VaxisModel.Witness.F316", "VaxisModel.Witness.C16StateEarly"],
     "extractors": ["C11", "C14", "C16"],
     "drivers": ["C16"],
     "trivial_prefix": ("L|L|L|L|L|L|L", "bad-op"),
